@@ -43,5 +43,191 @@ def part(ctx):
         c.queries.append((lv, 2 ** 32, [], ('ok', fpgen.obs(full))))
         cases.append(c)
     ctx.coverage.setdefault('input_distribution', {})['fprinter_route_cases'] = n
+    found |= routes_part(ctx)
     found |= m1lib.run_cases(ctx, cases, 'C07 fingerprinter route (model tie)') > 0
     return found
+
+
+# --------------------------------------------------------------------------- all routes pairwise, on the implementation
+# The statement names four routes to a b-bit fingerprint: ask the fingerprinter (length given to the constructor or to
+# get_fingerprint_at_level), fold the 2^32-bit fingerprint, fold it in two steps, fold a database of 2^32-bit fingerprints.
+# The model tie above runs ~25 molecules with one (b, mid) each; here every route and every way of writing the request is
+# compared with fold(b) of the 2^32-bit fingerprint for many lengths (1 ... 2^32), levels (None, -1, 0 ... beyond the last),
+# exact=True, atom masks, both fingerprint types, one Fingerprinter object reused over the conformers, and lengths that are
+# no power of two (the request must be refused exactly as fold refuses it).
+LENGTHS = [1, 2, 8, 32, 64, 256, 1024, 1024, 4096, 2 ** 16, 2 ** 20, 2 ** 24, 2 ** 31, 2 ** 32]
+KEY_ROUTES = 'C07:fprinter-route'
+
+
+def _strip(o):
+    return {k: o[k] for k in ('kind', 'bits', 'level', 'idx', 'cnt')}
+
+
+def make_fprinter(o, bits, counts):
+    from e3fp.fingerprint.fprinter import Fingerprinter
+    return Fingerprinter(bits=bits, level=o['level'], radius_multiplier=o['mult'], stereo=o['stereo'], counts=counts,
+                         include_disconnected=o['incl'], rdkit_invariants=o['rdkit'], exclude_floating=o['exfloat'],
+                         remove_duplicate_substructs=o['remdup'])
+
+
+def routes_case(ctx, name, mol, cids, o, counts, b0, queries, dist):
+    """queries: list of (level, exact, mask, [b...], mid).  Returns True if something failed."""
+    import numpy as np
+    from e3fp.fingerprint.db import FingerprintDatabase
+    from rdkit import Chem
+    failed = False
+    f0 = make_fprinter(o, b0, counts)
+    fulls = {}
+    for cid in cids:
+        try:
+            f0.run(cid, mol)                                  # ONE object over all conformers (what the pipeline does)
+        except Exception:  # noqa      molecules the fingerprinter refuses are C02's subject
+            dist['fingerprinter_refused'] = dist.get('fingerprinter_refused', 0) + 1
+            return False
+        k = int(f0.current_level)
+        for qi, (lv, exact, mask, bs, mid) in enumerate(queries):
+            lvv = k + 1 if lv == 'beyond' else (k if lv == 'last' else lv)
+            kw = {'level': lvv, 'exact': exact, 'atom_mask': set(mask)}
+            rfull = fpgen.attempt(lambda: f0.get_fingerprint_at_level(bits=2 ** 32, **kw))
+            if rfull[0] != 'ok':
+                # the request itself is refused (exact=True at a level that was never reached): every length must refuse it alike
+                dist['refused_requests'] = dist.get('refused_requests', 0) + 1
+                for b in bs:
+                    rb = fpgen.attempt(lambda: f0.get_fingerprint_at_level(bits=b, **kw))
+                    ctx.count(('fprinter-routes-refused', name, cid, str(lvv), exact, b), True)
+                    if rb != rfull:
+                        failed = True
+                        ctx.fail('a request refused at 2^32 bits (%s) is answered differently at %d bits' % (rfull[1], b),
+                                 {'name': name, 'conf': cid, 'opts': m1lib.opts_json(o), 'level': lvv, 'exact': exact, 'b': b, 'at_b': str(rb[1])[:200]}, finding_key=KEY_ROUTES)
+                continue
+            full = rfull[1]
+            ofull = fpgen.obs(full)
+            fulls.setdefault(qi, []).append((cid, full))
+            for b in bs:
+                want = fpgen.attempt(lambda: fpgen.obs(full.fold(b)))
+                got = {}
+                got['bits keyword'] = fpgen.attempt(lambda: fpgen.obs(f0.get_fingerprint_at_level(bits=b, **kw)))
+                got['positional'] = fpgen.attempt(lambda: fpgen.obs(f0.get_fingerprint_at_level(lvv, b, exact, set(mask))))
+                got['numpy integer'] = fpgen.attempt(lambda: fpgen.obs(f0.get_fingerprint_at_level(bits=np.int64(b), **kw)))
+                got['fold(b, 0)'] = fpgen.attempt(lambda: fpgen.obs(f0.get_fingerprint_at_level(bits=2 ** 32, **kw).fold(b, 0)))
+                if want[0] == 'ok':
+                    fb = make_fprinter(o, b, counts)
+                    fb.run(cid, mol)
+                    got['constructor, bits omitted'] = fpgen.attempt(lambda: fpgen.obs(fb.get_fingerprint_at_level(**kw)))
+                    got['constructor, bits=None'] = fpgen.attempt(lambda: fpgen.obs(fb.get_fingerprint_at_level(bits=None, **kw)))
+                    got['constructor, bits=-1'] = fpgen.attempt(lambda: fpgen.obs(fb.get_fingerprint_at_level(lvv, -1, exact, set(mask))))
+                    got['constructor, asked for 2^32 then folded'] = fpgen.attempt(lambda: fpgen.obs(fb.get_fingerprint_at_level(bits=2 ** 32, **kw).fold(b)))
+                    if mid is not None and b <= mid:
+                        got['two steps via %d' % mid] = fpgen.attempt(lambda: fpgen.obs(f0.get_fingerprint_at_level(bits=2 ** 32, **kw).fold(mid).fold(b)))
+                        got['asked for %d then folded' % mid] = fpgen.attempt(lambda: fpgen.obs(f0.get_fingerprint_at_level(bits=mid, **kw).fold(b)))
+                dist['route_comparisons'] += len(got)
+                dist['lengths'][str(b)] = dist['lengths'].get(str(b), 0) + 1
+                ctx.count(('fprinter-routes', name, cid, str(o), counts, str(lvv), exact, tuple(mask), b, mid), bool(ofull['idx']), n=len(got))
+                badr = {r: v for r, v in got.items() if v != want}
+                if badr or fpgen.obs(full) != ofull:
+                    failed = True
+                    ctx.fail('fingerprinter routes to %d bits differ from fold(%d) of the 2^32-bit fingerprint: %s' % (b, b, sorted(badr) or 'the 2^32-bit fingerprint changed'),
+                             {'name': name, 'conf': cid, 'opts': m1lib.opts_json(o), 'counts': counts, 'first_fingerprinter_bits': b0, 'level': lvv, 'exact': exact,
+                              'mask': sorted(mask), 'b': b, 'mid': mid,
+                              'replay': {'type': 'fprinter_routes', 'name': name, 'opts': m1lib.opts_json(o), 'counts': counts, 'b0': b0, 'level': lvv, 'exact': exact,
+                                         'mask': sorted(mask), 'b': b, 'mid': mid, 'molblock': Chem.MolToMolBlock(mol, confId=cid),
+                                         'exact_coords_hex': [[float(c).hex() for c in mol.GetConformer(cid).GetAtomPosition(i)] for i in range(mol.GetNumAtoms())]},
+                              'fold_of_full': fpgen.obs_json(want[1]) if want[0] == 'ok' else want[1],
+                              'differing_routes': {r: (fpgen.obs_json(v[1]) if v[0] == 'ok' else v[1]) for r, v in badr.items()}}, finding_key=KEY_ROUTES)
+    # the database route: all conformers' 2^32-bit fingerprints in one database, folded as a whole
+    for qi, (lv, exact, mask, bs, mid) in enumerate(queries):
+        items = fulls.get(qi, [])
+        if not items:
+            continue
+        items = [it for it in items if it[1].level == items[0][1].level]        # 'last' / 'beyond' resolve per conformer; a database holds one level
+        T = type(items[0][1])
+        r = fpgen.attempt(lambda: FingerprintDatabase(fp_type=T, level=items[0][1].level))
+        db = r[1] if r[0] == 'ok' else None
+        r = fpgen.attempt(lambda: db.add_fingerprints([f for _, f in items]))
+        if r[0] != 'ok':
+            failed = True
+            ctx.fail('2^32-bit fingerprints of a fingerprinter could not be stored in a database: %s' % r[1], {'name': name, 'opts': m1lib.opts_json(o), 'level': str(lv)}, finding_key=KEY_ROUTES)
+            continue
+        for b in bs:
+            want = [fpgen.attempt(lambda f=f: _strip(fpgen.obs(f.fold(b)))) for _, f in items]
+            chainb = [x for x in (mid,) if x is not None and b <= x]
+            got = {'database fold': fpgen.attempt(lambda: db.fold(b))}
+            if chainb:
+                got['database fold in two steps via %d' % mid] = fpgen.attempt(lambda: db.fold(mid).fold(b))
+            for rname, g in got.items():
+                dist['route_comparisons'] += 1
+                dist['database_route'] += 1
+                if all(w[0] == 'ok' for w in want):
+                    rows = fpgen.attempt(lambda: [_strip(fpgen.obs(g[1][j])) for j in range(len(items))]) if g[0] == 'ok' else g
+                    ok = rows[0] == 'ok' and rows[1] == [w[1] for w in want]
+                else:
+                    ok = g[0] == 'err' and g[1] == want[0][1]
+                    rows = g
+                if not ok:
+                    failed = True
+                    ctx.fail('%s of the 2^32-bit fingerprints to %d bits differs from folding each fingerprint' % (rname, b),
+                             {'name': name, 'confs': [c for c, _ in items], 'opts': m1lib.opts_json(o), 'counts': counts, 'level': str(lv), 'exact': exact, 'mask': sorted(mask), 'b': b,
+                              'fingerprint_folds': [fpgen.obs_json(dict(w[1], name=None)) if w[0] == 'ok' else w[1] for w in want],
+                              'database_rows': [fpgen.obs_json(dict(x, name=None)) for x in rows[1]] if rows[0] == 'ok' else str(rows[1])}, finding_key=KEY_ROUTES)
+    return failed
+
+
+def routes_part(ctx):
+    rng = ctx.rng
+    dist = {'molecules': 0, 'route_comparisons': 0, 'database_route': 0, 'lengths': {}, 'refused_lengths': 0}
+    found = False
+    for (name, m0, cid) in molgen.pool(rng, ctx.n(36, 400)):
+        o = molgen.rand_opts(rng)
+        counts = rng.random() < 0.5
+        ids = [c.GetId() for c in m0.GetConformers()]
+        cids = [ids[cid]] + ([rng.choice(ids)] if len(ids) > 1 and rng.random() < 0.6 else [])
+        heavy = [a.GetIdx() for a in m0.GetAtoms() if a.GetAtomicNum() > 1]
+        queries = []
+        for lv in rng.sample([None, -1, 0, 1, 2, 'last', 'beyond'], 2):
+            mask = rng.sample(heavy, min(len(heavy), rng.choice([1, 2]))) if heavy and rng.random() < 0.3 else []
+            queries.append((lv, rng.random() < 0.25, mask, rng.sample(LENGTHS, 2), rng.choice([None, 2 ** 12, 2 ** 16, 2 ** 24, 2 ** 31])))
+        dist['molecules'] += 1
+        found = routes_case(ctx, name, m0, cids, o, counts, rng.choice([2 ** 32, 2 ** 32, 4096, 1024, 2 ** 20]), queries, dist) or found
+    # lengths that fold refuses: the fingerprinter must refuse them the same way (constructor and argument)
+    from e3fp.fingerprint.fprinter import Fingerprinter
+    for (name, m0, cid) in molgen.pool(rng, ctx.n(10, 80)):
+        b = rng.choice([1000, 12, 96, 3 * 2 ** 10, 2 ** 33, 5, 10 ** 6, 2 ** 32 - 1, 2 ** 31 + 2 ** 30])
+        counts = rng.random() < 0.5
+        ids = [c.GetId() for c in m0.GetConformers()]
+        try:
+            f = Fingerprinter(bits=b, level=3, counts=counts)
+            f.run(ids[cid], m0)
+            g = Fingerprinter(level=3, counts=counts)
+            g.run(ids[cid], m0)
+        except Exception:  # noqa
+            continue
+        full = g.get_fingerprint_at_level(bits=2 ** 32)
+        want = fpgen.attempt(lambda: full.fold(b))
+        got = {'constructor': fpgen.attempt(lambda: f.get_fingerprint_at_level()), 'argument': fpgen.attempt(lambda: g.get_fingerprint_at_level(bits=b)),
+               'constructor, valid argument': fpgen.attempt(lambda: fpgen.obs(f.get_fingerprint_at_level(bits=1024)))}
+        dist['refused_lengths'] += 1
+        ctx.count(('fprinter-refused', name, b, counts), True)
+        if want[0] != 'err' or got['constructor'] != want or got['argument'] != want or got['constructor, valid argument'] != ('ok', fpgen.obs(full.fold(1024))):
+            found = True
+            ctx.fail('a length that is not 2^32 divided by a power of two (%d) is not refused by the fingerprinter as fold refuses it' % b,
+                     {'name': name, 'b': b, 'counts': counts, 'fold': str(want[1]), 'routes': {k: str(v[1])[:200] for k, v in got.items()}}, finding_key=KEY_ROUTES)
+    ctx.coverage.setdefault('input_distribution', {})['fprinter_routes_on_implementation'] = dist
+    ctx.coverage['rule'] = (ctx.coverage.get('rule', '') + ' [fingerprinter part] model tie on ~25 molecules; on the implementation every route (constructor bits with bits omitted / None / -1, '
+                            'bits argument keyword / positional / numpy, two steps, folding what a b-bit request returned, database fold in one and two steps) against fold(b) of the '
+                            '2^32-bit fingerprint for lengths 1 ... 2^32, levels None / -1 / 0 ... beyond the last, exact=True, atom masks, one Fingerprinter reused over conformers; refused lengths.')
+    return found
+
+
+def replay_case(ctx, rp):
+    """Re-run one recorded route comparison (single conformer, exact coordinates restored)."""
+    if rp.get('type') != 'fprinter_routes':
+        return False
+    from rdkit import Chem
+    from rdkit.Geometry import Point3D
+    m = Chem.MolFromMolBlock(rp['molblock'], removeHs=False)
+    conf = m.GetConformer()
+    for i, xyz in enumerate(rp['exact_coords_hex']):
+        conf.SetAtomPosition(i, Point3D(*[float.fromhex(v) for v in xyz]))
+    dist = {'molecules': 0, 'route_comparisons': 0, 'database_route': 0, 'lengths': {}, 'refused_lengths': 0}
+    routes_case(ctx, rp['name'], m, [conf.GetId()], rp['opts'], rp['counts'], rp['b0'], [(rp['level'], rp['exact'], rp['mask'], [rp['b']], rp['mid'])], dist)
+    return True
